@@ -87,10 +87,11 @@ Proof.
   - cbn. rewrite N.add_0_r. reflexivity.
   - cbn [forallb] in Hq. apply andb_true_iff in Hq. destruct Hq as [Ho Hr].
     destruct o; try discriminate. cbn [length] in Hl.
-    rewrite run_from_cons. unfold step at 1 2. cbn [closed empties got_req].
-    replace (11 <=? e)%N with false by (symmetry; apply N.leb_gt; lia).
-    cbn [fst snd]. rewrite IH by (try assumption; lia). cbn [fst snd map length].
-    Show. f_equal. f_equal. rewrite Nat2N.inj_succ. lia.
+    assert (E : step adv on (mkSt g false e) Empty = (mkSt g false (e + 1), [])).
+    { unfold step. cbn [closed empties got_req].
+      replace (11 <=? e)%N with false by (symmetry; apply N.leb_gt; lia). reflexivity. }
+    rewrite run_from_cons, E. cbn [fst snd]. rewrite IH by (try assumption; lia). cbn [fst snd map length].
+    f_equal. f_equal. lia.
 Qed.
 
 Theorem first_request_answered adv on pre post :
@@ -101,7 +102,8 @@ Proof.
   unfold quiet. intro Hq. apply andb_true_iff in Hq. destruct Hq as [Hq Hl]. apply Nat.leb_le in Hl.
   unfold outs, run, init. rewrite run_from_app. cbn [snd].
   rewrite run_empties by (try assumption; lia). cbn [fst snd].
-  rewrite run_from_cons. unfold step at 1 2. cbn [closed got_req fst snd].
+  assert (E : forall e, step adv on (mkSt false false e) Req = (mkSt true false 0, [OResp adv on])) by reflexivity.
+  rewrite run_from_cons, E. cbn [fst snd].
   eexists. split; [reflexivity|].
   pose proof (one_response_from adv on post (mkSt true false 0)) as H. unfold budget in H. cbn in H. lia.
 Qed.
@@ -115,8 +117,10 @@ Theorem echo_identical adv on pre p post :
 Proof.
   unfold final, outs, run. intros Hc Hp. rewrite run_from_app. cbn [snd].
   set (s := fst (run_from adv on init pre)) in *.
-  rewrite run_from_cons. unfold step at 1 2. rewrite Hc.
-  destruct p as [|b p']; [congruence|]. cbn [fst snd].
+  destruct p as [|b p']; [congruence|].
+  assert (E : step adv on s (Ping (b :: p')) = (mkSt (got_req s) true 0, [OEcho (b :: p'); OClose])).
+  { unfold step. rewrite Hc. reflexivity. }
+  rewrite run_from_cons, E. cbn [fst snd].
   eexists. split; [reflexivity|].
   apply closed_is_absorbing. reflexivity.
 Qed.
@@ -292,9 +296,21 @@ Proof. unfold holds_C43, outs, run, init. apply spec_holds_from. Qed.
 (* non-vacuity: a concrete session that exercises every clause *)
 Example c43_example :
   outs 763 2 [Empty; Req; Req] = [[]; [OResp 763 2]; [OClose]] /\
-  outs 763 2 [Req; Ping [1;2;3;4;5;6;7;8]; Req] = [[OResp 763 2]; [OEcho [1;2;3;4;5;6;7;8]%N; OClose]; []] /\
+  outs 763 2 [Req; Ping [1;2;3;4;5;6;7;8]%N; Req] = [[OResp 763 2]; [OEcho [1;2;3;4;5;6;7;8]%N; OClose]; []] /\
   quiet [Empty; Empty] = true /\
   closing (final 763 2 [Req]) Req = true /\ closed (final 763 2 [Req]) = false /\
   spec_advertised gate_supported 763 = 763 /\ spec_advertised gate_supported 999999 = 776 /\
   impl_advertised gate_supported 999999 = 4.
 Proof. vm_compute. repeat split; reflexivity. Qed.
+
+(* the response to the first request advertises the demanded protocol and the given player count *)
+Theorem advertised_protocol_spec sup p online pre post :
+  sup <> [] -> quiet pre = true ->
+  (exists rest, outs (spec_advertised sup p) online (pre ++ Req :: post)
+                = map (fun _ => []) pre ++ [OResp (if memZ p sup then p else newest sup) online] :: rest)
+  /\ In (newest sup) sup /\ Forall (fun v => v <= newest sup) sup.
+Proof.
+  intros Hne Hq. split; [|apply newest_is_max; exact Hne].
+  destruct (first_request_answered (spec_advertised sup p) online pre post Hq) as (rest & E & _).
+  exists rest. exact E.
+Qed.
